@@ -422,6 +422,21 @@ def directed_enf_script():
     return lines, meta
 
 
+def compound_kind(sp):
+    return sp[0] in ("cmp", "se2", "se3", "torus", "mobius", "klein", "sphere") or (sp[0] == "wrap" and compound_kind(sp[1]))
+
+
+def wraps_compound(sp):
+    """a wrapper around a compound-type space somewhere: OMPL's computeLocationsHelper is undefined behaviour for those
+    (WrapperStateSpace::isCompound() forwards, then `as<CompoundStateSpace>()` static_casts the wrapper), so no location
+    tables — hence no SubspaceStateSampler — are built for such spaces"""
+    if sp[0] == "wrap":
+        return compound_kind(sp[1]) or wraps_compound(sp[1])
+    if sp[0] == "cmp":
+        return any(wraps_compound(c) for _, c in sp[1])
+    return False
+
+
 def so3_scales(sp, scale=1.0):
     """for every SO(3) leaf: the factor by which the default (compound) sampler scales a distance before it reaches the
     SO(3) sampler (product of weight importances; 0 if a `weight <= eps -> uniform` branch is on the way)"""
@@ -490,6 +505,8 @@ def gen_samp_script(r, nconf, ndraws, counts, seed):
         ext = extent(sp)
         centre = state_tokens(r, sp, False)
         ncomp = 2 if sp[0] == "se3" else len(sp[1]) if sp[0] == "cmp" else 0
+        if wraps_compound(sp):
+            ncomp = 0
         for kind in ("u", "n", "g"):
             radii = [0.0] if kind == "u" else [0.0, ext * r.unit() * 0.3, ext * r.choice([1.0, 3.0]), ext * r.choice([50.0, 1000.0])]
             subs = [None] * len(radii)
@@ -546,6 +563,315 @@ def gen_alias_script(r, nconf, ndraws, counts, seed):
                 counts("alias:" + kind)
                 counts("alias-space:" + sp[0])
     return lines, meta
+
+
+# ---------------------------------------------------------------------------------- SubspaceStateSampler lock-step
+def sub_components(sp):
+    """components through which a subspace path may go (plain compounds, SE2/SE3), as (weight, space) lists"""
+    if sp[0] == "cmp":
+        return list(sp[1])
+    if sp[0] == "se2":
+        return [(1.0, ("rv", sp[1], sp[2])), (0.5, ("so2",))]
+    if sp[0] == "se3":
+        return [(1.0, ("rv", sp[1], sp[2])), (1.0, ("so3",))]
+    return None
+
+
+def gen_subs_op(r, counts):
+    while True:
+        sp = multibody_space(r) if r.chance(1, 3) else gen_space(r)
+        if sub_components(sp) is None or not sub_components(sp) or wraps_compound(sp):
+            continue
+        break
+    path = []
+    node = sp
+    first = 0
+    depth = r.choice([1, 1, 1, 2, 2, 3, 0])
+    for _ in range(depth):
+        comps = sub_components(node)
+        if not comps:
+            break
+        k = r.below(len(comps))
+        # leaves before component k
+        first += sum(len(leaves(c)) if c[0] != "so3" else 1 for _, c in comps[:k])
+        path.append(k)
+        node = comps[k][1]
+    if node[0] == "wrap":
+        return gen_subs_op(r, counts)      # a wrapper as the sampled subspace: "no effect" in OMPL, rejected on both sides
+    kind = r.choice(["u", "n", "g"])
+    d = r.choice([0.0, 0.05, 0.3, 0.7, 1.0, 2.5, 100.0, 1e6, r.uniform(0, 10)])
+    far = r.chance(1, 3)
+    st = state_tokens(r, sp, far)
+    near = state_tokens(r, sp, far)
+    scripted = state_tokens(r, node, r.chance(1, 2))
+    # importance of a direct component (F78 convention), 1.0 for deeper or empty paths
+    weight = 1.0
+    if len(path) == 1:
+        ws = 0.0
+        for w, _ in sub_components(sp):
+            ws += w
+        weight = 1.0 if ws < EPS else sub_components(sp)[path[0]][0] / ws
+    line = " ".join(["subs", kind, str(len(path))] + [str(k) for k in path] + [fb(d)] + sp_tokens(sp) + st + near + scripted)
+    counts("subs:" + kind)
+    counts("subs-path-length:%d" % len(path))
+    counts("subs-subspace:" + node[0])
+    # token offset of the subspace inside a full state
+    def ntok(space):
+        return sum(4 if lf[0] == "q" else 1 for lf in leaves(space))
+    off = 0
+    node2 = sp
+    for k in path:
+        comps = sub_components(node2)
+        off += sum(ntok(c) for _, c in comps[:k])
+        node2 = comps[k][1]
+    return line, {"kind": kind, "st": st, "near": near, "scripted": scripted, "off": off, "len": ntok(node), "d": d, "weight": weight,
+                  "space": sp, "path": path}
+
+
+def subs_oracle(m, line):
+    """SubspaceStateSampler semantics on the implementation's line: only the subspace's leaves change and they become the inner
+    sampler's output; the inner sampler gets near's substate and distance * importance"""
+    if line == "bad-op":
+        return "bad-op on a well-formed subs line"
+    try:
+        left, right = line.split(" | ")
+        out = left[len("out="):].split()
+        h = {}
+        toks = right.split(" ")
+        h["call"] = toks[0].split("=", 1)[1]
+        h["d"] = toks[1].split("=", 1)[1]
+        nr = [toks[2].split("=", 1)[1]] + toks[3:]
+        nr = [x for x in nr if x != ""]
+    except Exception as ex:
+        return "unparsable output %r (%r)" % (line, ex)
+    o, n = m["off"], m["len"]
+    want = m["st"][:o] + m["scripted"] + m["st"][o + n:]
+    if out != want:
+        return "the full state after the call is not `state` with exactly the subspace overwritten by the inner sampler's output"
+    if h["call"] != {"u": "U", "n": "N", "g": "G"}[m["kind"]]:
+        return "wrong inner sampler method called"
+    if m["kind"] != "u":
+        if nr != m["near"][o:o + n] and not (n == 0 and nr == ["-"]):
+            if not (n == 0 and nr == []):
+                return "the inner sampler was not given near's substate"
+        if canon(h["d"]) != canon(fb(m["d"] * m["weight"])):
+            return "the inner sampler was given distance %r, expected distance*importance = %r" % (bf(h["d"]), m["d"] * m["weight"])
+    return None
+
+
+def run_subs(ck, hbin, lines, meta):
+    impl, rc, err, model = ck.run_pair(hbin, DRIVER, lines)
+    impl = impl or []
+    ck.traces_validated += 1
+    ok = True
+    if rc != 0:
+        ck.report({"engine": "spacebounds", "clause": "harness-exit", "what": "harness exited with %s on subs runs" % rc},
+                  script=lines, observed=(err or "")[-2000:], engine="spacebounds")
+        return False
+    nrep = 0
+    for i, m in enumerate(meta):
+        line = impl[i] if i < len(impl) else "<missing>"
+        ck.case(("subs", lines[i + 1]), True)
+        f = subs_oracle(m, line)
+        if f is not None:
+            rec = {"engine": "spacebounds", "op": "subs", "clause": "subspace-sampler-semantics", "sampler": m["kind"],
+                   "path_length": len(m["path"]), "what": f}
+            if ck.report(rec, script=[lines[0], lines[i + 1]], expected=[model[i] if i < len(model) else None], observed=[line],
+                         engine="spacebounds"):
+                ck.log("property failure (SubspaceStateSampler): %s" % f)
+                ok = False
+                nrep += 1
+        elif canon(line) != canon(model[i] if i < len(model) else "<missing>"):
+            ck.disagreements += 1
+            ck.report({"engine": "spacebounds", "op": "subs", "what": "model/implementation disagreement"},
+                      script=[lines[0], lines[i + 1]], expected=[model[i] if i < len(model) else None], observed=[line],
+                      found_input=False, engine="spacebounds",
+                      obligation="correspondence spacebounds: SubspaceStateSampler vs OmplModel.Model.SpaceBounds (subspaceNear/…)")
+            ck.log("correspondence disagreement on a subs line; oracle passes")
+            ok = False
+            nrep += 1
+        if nrep >= 3:
+            break
+    return ok
+
+
+def gen_cmps_op(r, counts):
+    while True:
+        sp = multibody_space(r) if r.chance(1, 4) else gen_space(r)
+        if sub_components(sp):
+            break
+    kind = r.choice(["u", "n", "n", "g"])
+    d = r.choice([0.0, 0.05, 0.3, 1.0, 2.5, 100.0, 1e6, 1e-300, r.uniform(0, 10)])
+    near = state_tokens(r, sp, False)
+    counts("cmps:" + kind)
+    return " ".join(["cmps", kind, fb(d)] + sp_tokens(sp) + near), {"space": sp, "kind": kind, "d": d}
+
+
+def cmps_oracle(m, line):
+    """CompoundStateSampler: component i gets distance * w_i/sum(w) (sum < eps: importance 1); near falls back to uniform
+    when the importance is <= eps"""
+    if line == "bad-op" or not line.startswith("calls="):
+        return "bad-op on a well-formed cmps line"
+    got = line[len("calls="):].split(",")
+    comps = sub_components(m["space"])
+    ws = 0.0
+    for w, _ in comps:
+        ws += w
+    want = []
+    for w, _ in comps:
+        imp = 1.0 if ws < EPS else w / ws
+        if m["kind"] == "u":
+            want.append("U")
+        elif m["kind"] == "n":
+            want.append("N:" + fb(m["d"] * imp) if imp > EPS else "U")
+        else:
+            want.append("G:" + fb(m["d"] * imp))
+    if [canon(x) for x in got] != [canon(x) for x in want]:
+        for j, (a, b) in enumerate(zip(got, want)):
+            if canon(a) != canon(b):
+                return "component %d was asked %s, expected %s (weight-scaled distance / uniform fallback)" % (j, a, b)
+        return "wrong number of component calls"
+    return None
+
+
+def run_cmps(ck, hbin, lines, meta):
+    impl, rc, err, model = ck.run_pair(hbin, DRIVER, lines)
+    impl = impl or []
+    ck.traces_validated += 1
+    ok = True
+    if rc != 0:
+        ck.report({"engine": "spacebounds", "clause": "harness-exit", "what": "harness exited with %s on cmps runs" % rc},
+                  script=lines, observed=(err or "")[-2000:], engine="spacebounds")
+        return False
+    nrep = 0
+    for i, m in enumerate(meta):
+        line = impl[i] if i < len(impl) else "<missing>"
+        ck.case(("cmps", lines[i + 1]), True)
+        if "U" in line and m["kind"] == "n":
+            ck.count("cmps:near-fell-back-to-uniform")
+        f = cmps_oracle(m, line)
+        mo = model[i] if i < len(model) else "<missing>"
+        if f is not None:
+            rec = {"engine": "spacebounds", "op": "cmps", "clause": "compound-sampler-decisions", "sampler": m["kind"], "what": f}
+            if ck.report(rec, script=[lines[0], lines[i + 1]], expected=[mo], observed=[line], engine="spacebounds"):
+                ck.log("property failure (CompoundStateSampler): %s" % f)
+                ok = False
+                nrep += 1
+        elif canon(line) != canon(mo):
+            ck.disagreements += 1
+            ck.report({"engine": "spacebounds", "op": "cmps", "what": "model/implementation disagreement"},
+                      script=[lines[0], lines[i + 1]], expected=[mo], observed=[line], found_input=False, engine="spacebounds",
+                      obligation="correspondence spacebounds: CompoundStateSampler decisions vs OmplModel.Model.SpaceBounds (nearBranch)")
+            ck.log("correspondence disagreement on a cmps line; oracle passes")
+            ok = False
+            nrep += 1
+        if nrep >= 3:
+            break
+    return ok
+
+
+# ---------------------------------------------------------------------------------- raw-draw lock-step of single-object samplers
+def gen_rawu_op(r, counts):
+    c = r.below(12)
+    if c < 2:
+        n = r.range(1, 3)
+        rs = [gen_range(r, False) for _ in range(n)]
+        sp = ("rv", [x[0] for x in rs], [x[1] for x in rs])
+    elif c == 2:
+        sp = ("so2",)
+    elif c == 3:
+        sp = ("so3",)
+    elif c == 4:
+        lo, hi, _ = gen_range(r, False)
+        sp = ("time", True, lo, hi)
+    elif c == 5:
+        lo = r.range(-20, 20)
+        sp = ("disc", lo, lo + r.choice([0, 1, 3, 10, 1000]))
+    elif c < 8:
+        sp = ("torus", r.uniform(1, 5), r.uniform(0.1, 1))
+    elif c < 10:
+        sp = ("klein",)
+    else:
+        sp = ("sphere", r.uniform(0.5, 3))
+    kind = r.choice(["u", "u", "n", "g"])
+    d = 0.0 if kind == "u" else r.choice([0.0, 0.05, 0.3, 0.7, 1.5, 4.0, 50.0, extent(sp) * r.unit()])
+    if sp[0] == "disc":
+        d = min(d, 1e6)
+    nl = max(1, len(leaves(sp)))
+    if sp[0] == "so3":
+        if kind == "u":
+            recipe = "uuu"
+        elif kind == "n":
+            if abs(d - 0.25 * PI) < 1e-6:
+                d = 0.3
+            recipe = "uuu" if d >= 0.25 * PI else "cggg"
+        else:
+            rot = (2.0 * d) / math.sqrt(3.0)
+            if abs(rot - 1.17) < 1e-6:
+                d = 0.3
+                rot = (2.0 * d) / math.sqrt(3.0)
+            recipe = "uuu" if rot > 1.17 else "ggg"
+    elif sp[0] in ("torus", "klein") and kind == "u":
+        recipe = "uuu" * 64
+    elif kind == "g":
+        recipe = "g" * max(nl, 2)
+    else:
+        recipe = "u" * max(nl, 2)
+    centre = state_tokens(r, sp, False)
+    counts("rawu:" + sp[0] + ":" + kind)
+    return " ".join(["rawu", kind, recipe, fb(d)] + sp_tokens(sp) + centre), {"space": sp, "kind": kind, "d": d, "centre": centre}
+
+
+def run_rawu(ck, hbin, lines, meta):
+    """phase 1: the real sampler + the raw draws it consumed; phase 2: the model on those raw draws; states must agree bit for bit"""
+    impl, rc, err = ck.run_bin(hbin, lines)
+    impl = impl or []
+    ck.traces_validated += 1
+    if rc != 0:
+        ck.report({"engine": "spacebounds", "clause": "harness-exit", "what": "harness exited with %s on rawu runs" % rc},
+                  script=lines, observed=(err or "")[-2000:], engine="spacebounds")
+        return False
+    dl = ["spacebounds seed=1"]
+    parsed = []
+    for i, m in enumerate(meta):
+        line = impl[i] if i < len(impl) else "<missing>"
+        try:
+            head, state = line.split(" | ") if " | " in line else (line.rstrip(" |"), "")
+            hv = kv(head)
+            us = [] if hv["us"] == "-" else hv["us"].split(",")
+            gs = [] if hv["gs"] == "-" else hv["gs"].split(",")
+        except Exception:
+            ck.report({"engine": "spacebounds", "op": "rawu", "clause": "protocol", "what": "unparsable rawu output: " + line[:200]},
+                      script=[lines[0], lines[i + 1]], observed=[line], found_input=False, engine="spacebounds",
+                      obligation="rawu protocol")
+            return False
+        parsed.append(state.strip())
+        dl.append(" ".join(["rsamp", m["kind"], fb(m["d"]), str(len(us))] + us + [str(len(gs))] + gs + sp_tokens(m["space"]) + m["centre"]))
+    out, rc2, err2 = ck.run_bin(ck.driver(DRIVER), dl)
+    out = out or []
+    ok = True
+    nrep = 0
+    for i, m in enumerate(meta):
+        mo = out[i] if i < len(out) else "<missing>"
+        res, _, mstate = mo.partition(" | ")
+        ck.case(("rawu", lines[0], lines[i + 1]), True)
+        ck.count("rawu-result:" + res.split(":")[0])
+        if res.startswith("found"):
+            ck.count("rejection-iterations-before-accept", int(res.split(":")[1]))
+        if res == "exhausted":
+            continue
+        if canon(mstate.strip()) != canon(parsed[i]):
+            ck.disagreements += 1
+            ck.report({"engine": "spacebounds", "op": "rawu", "what": "model/implementation disagreement"},
+                      script=[lines[0], lines[i + 1]], expected=[mo], observed=[impl[i]], found_input=False, engine="spacebounds",
+                      obligation="correspondence spacebounds: default sampler of %s (%s) on its own raw draws vs "
+                                 "OmplModel.Model.SpaceBounds" % (m["space"][0], m["kind"]))
+            ck.log("correspondence disagreement on a rawu line (%s %s): model %s / impl %s" % (m["space"][0], m["kind"], mo[:80], parsed[i][:80]))
+            ok = False
+            nrep += 1
+            if nrep >= 3:
+                break
+    return ok
 
 
 REBOUND_MODES = ["shrunk", "disjoint", "enlarged", "degenerate", "regenerated"]
@@ -635,7 +961,7 @@ def gen_rebound_script(r, nconf, ndraws, counts, seed):
             continue
         kind = r.choice(["u", "n", "g"])
         which = r.choice(["d", "d", "wrapcmp", "vss", "scoped"])
-        if sp[0] == "cmp" and sp[1] and r.chance(1, 3):
+        if sp[0] == "cmp" and sp[1] and r.chance(1, 3) and not wraps_compound(sp):
             which = "sub %d" % r.below(len(sp[1]))
         if which == "scoped":
             kind = "u"
@@ -879,6 +1205,9 @@ def run_samp(ck, hbin, lines, meta, pre=None):
         return False
     for i, m in enumerate(meta):
         line = impl[i] if i < len(impl) else "<missing>"
+        if line.startswith("skip"):
+            ck.count("samp:skipped(" + line.split()[1] + ")")
+            continue
         h = kv(line)
         n = int(h.get("n", 0))
         ck.case(("samp", lines[0], lines[i + 1]), True)
@@ -1149,6 +1478,7 @@ def run(ck):
     run_enf(ck, hbin, lines, meta, "directed")
     ck.count("scripts:directed-enf")
 
+    ck.log("stage: (a) enforceBounds lock-step")
     # (a) enforceBounds lock-step
     nscripts, nops = (16, 300) if quick else (60, 500)
     jobs = []
@@ -1163,6 +1493,7 @@ def run(ck):
         if len(ck.violations) >= 3:
             break
 
+    ck.log("stage: (c) valid-state samplers lock-step")
     # (c) valid-state samplers lock-step
     nscripts, nops = (8, 300) if quick else (40, 600)
     for i in range(nscripts):
@@ -1178,8 +1509,9 @@ def run(ck):
         if len(ck.violations) >= 3:
             break
 
+    ck.log("stage: (b) real samplers, implementation only")
     # (b) real samplers, implementation only
-    nscripts, nconf, ndraws = (16, 40, 20000) if quick else (32, 80, 100000)
+    nscripts, nconf, ndraws = (16, 40, 8000) if quick else (32, 80, 100000)
     jobs = []
     for i in range(nscripts):
         r = ck.rng.fork("samp%d" % i)
@@ -1192,6 +1524,40 @@ def run(ck):
         if len(ck.violations) >= 3:
             break
 
+    ck.log("stage: (b''') SubspaceStateSampler lock-step")
+    # (b''') SubspaceStateSampler lock-step (scripted inner sampler) and raw-draw lock-step of the single-object samplers
+    for i in range(3 if quick else 12):
+        r = ck.rng.fork("subs%d" % i)
+        lines = ["spacebounds seed=1"]
+        meta = []
+        for _ in range(300):
+            ln, m = gen_subs_op(r, counts)
+            lines.append(ln)
+            meta.append(m)
+        run_subs(ck, hbin, lines, meta)
+        ck.count("scripts:subs")
+    for i in range(2 if quick else 8):
+        r = ck.rng.fork("cmps%d" % i)
+        lines = ["spacebounds seed=1"]
+        meta = []
+        for _ in range(300):
+            ln, m = gen_cmps_op(r, counts)
+            lines.append(ln)
+            meta.append(m)
+        run_cmps(ck, hbin, lines, meta)
+        ck.count("scripts:cmps")
+    for i in range(3 if quick else 12):
+        r = ck.rng.fork("rawu%d" % i)
+        lines = ["spacebounds seed=%d" % (ck.seed * 1000 + 950 + i)]
+        meta = []
+        for _ in range(300):
+            ln, m = gen_rawu_op(r, counts)
+            lines.append(ln)
+            meta.append(m)
+        run_rawu(ck, hbin, lines, meta)
+        ck.count("scripts:rawu")
+
+    ck.log("stage: (b'') alias-safety probe")
     # (b'') alias-safety probe: state == near
     nscripts, nconf, ndraws = (4, 25, 2000) if quick else (12, 50, 10000)
     jobs = []
@@ -1206,6 +1572,7 @@ def run(ck):
         if len(ck.violations) >= 3:
             break
 
+    ck.log("stage: (b') bounds changed after")
     # (b') bounds changed after the sampler objects were allocated
     nscripts, nconf, ndraws = (8, 40, 2000) if quick else (24, 80, 10000)
     jobs = []
@@ -1220,6 +1587,7 @@ def run(ck):
         if len(ck.violations) >= 3:
             break
 
+    ck.log("stage: (c') valid-state samplers over the real samplers")
     # (c') valid-state samplers over the real samplers and a recorded pseudo-random predicate
     nscripts, nconf, iters = (12, 30, 400) if quick else (24, 60, 2000)
     jobs = []
@@ -1234,6 +1602,7 @@ def run(ck):
         if len(ck.violations) >= 3:
             break
 
+    ck.log("stage: model samplers at Float")
     # model samplers at Float on generated raw draws
     for i in range(2 if quick else 10):
         lines, meta = gen_msamp_script(ck.rng.fork("msamp%d" % i), 300, counts)
